@@ -106,3 +106,42 @@ def cclose(got, ref, rel):
         return all(v != v for v in (got.real, ref.real)) or False
     m = max(abs(ref), 1e-300)
     return abs(got - ref) <= rel * m
+
+
+# ---------------------------------------------------------------- 70-digit references for eval_decimal (Python decimal)
+from decimal import Decimal as _D, getcontext as _gc, localcontext as _lc
+def dec_ref(f, a):
+    """a: tuple of decimal.Decimal arguments; returns Decimal (70 significant digits) or None outside the domain"""
+    with _lc() as ctx:
+        ctx.prec = 70
+        ln2 = _D(2).ln()
+        try:
+            if f == 'ln':
+                return a[0].ln() if a[0] > 0 else None
+            if f == 'lb':
+                return a[0].ln() / ln2 if a[0] > 0 else None
+            if f == 'exp':
+                return a[0].exp()
+            if f == 'exp2':
+                return (a[0] * ln2).exp()
+            if f == 'sqrt':
+                return a[0].sqrt() if a[0] >= 0 else None
+            if f == 'pow':
+                x, y = a
+                if x > 0:
+                    return (y * x.ln()).exp()
+                if x == 0:
+                    return _D(0) if y > 0 else None
+                if y == y.to_integral_value():
+                    r = (y * (-x).ln()).exp()
+                    return r if int(y) % 2 == 0 else -r
+                return None
+            if f == 'root':
+                n, x = a
+                return (x.ln() / n).exp() if x > 0 and n != 0 else None
+            if f == 'log':
+                x, b = a
+                return x.ln() / b.ln() if x > 0 and b > 0 and b != 1 else None
+        except Exception:
+            return None
+    return None
